@@ -33,6 +33,12 @@ pub fn stats_from_json(v: &Value) -> Stats {
     s
 }
 
+/// Development aid (mutation experiments on hook code): skip the program-level sections, which
+/// need the simulator dylib rebuilt. The run is then reported as capped, never as exhaustive.
+pub fn skip_programs() -> bool {
+    std::env::var("VF_SIM1_SKIP_PROGRAMS").is_ok_and(|v| v == "1")
+}
+
 pub struct JobResult {
     pub stats: Stats,
     /// stdout lines of the child other than its STATS line
